@@ -463,5 +463,93 @@ class PreservedBlockHistories(Part):
         return res
 
 
+class ConstructionHistories(Part):
+    name = "construction_histories_over_shared_option_objects"
+    desc = ("one list object of prefixes to preserve and one of networks to preserve handed to every constructor of a history of "
+            "<= 3 (thorough 4) constructions (IpAnonymizer with / without networks, FileAnonymizer to anonymize / to undo, "
+            "anonymize_files over a one-line file): the last object answers like one built from fresh copies, and the "
+            "caller's lists are unchanged")
+
+    OPTIONS = [(["128.0.0.0/1", "192.0.0.0/2"], ["11.11.0.0/16"]), (["10.0.0.0/8", "130.16.0.0/12"], []),
+               (["0.0.0.0/1", "128.0.0.0/2", "128.0.0.0/2"], ["200.7.6.0/24", "10.0.0.0/8"])]
+    CTORS = ("ip", "ip-no-networks", "file", "file-undo", "anonymize_files")
+    ADDRS = ["130.16.3.7", "10.1.2.3", "11.11.5.5", "200.7.6.9", "193.4.4.4", "64.9.9.9", "226.1.1.1", "99.99.99.99"]
+
+    def __init__(self, tier, seed):
+        self.tier, self.seed = tier, seed
+
+    def cases(self):
+        return [{"opt": i, "last": c} for i in range(len(self.OPTIONS)) for c in self.CTORS[:4]]
+
+    def build(self, kind, P, N, root):
+        import io
+
+        from netconan.anonymize_files import FileAnonymizer, anonymize_files
+        from props import ipdom
+
+        m = ipdom.mod()
+        with seams.capture_logs():
+            if kind == "ip":
+                o = m.IpAnonymizer("saltForTest", P, N)
+                return lambda a: m.anonymize_ip_addr(o, a, False)
+            if kind == "ip-no-networks":
+                o = m.IpAnonymizer("saltForTest", P)
+                return lambda a: m.anonymize_ip_addr(o, a, False)
+            if kind == "anonymize_files":
+                seams.write_tree(os.path.join(root, "in"), {"x.cfg": "ip address 130.16.3.7\n"})
+                anonymize_files(os.path.join(root, "in", "x.cfg"), os.path.join(root, "out.cfg"), False, True, salt="saltForTest",
+                                preserve_prefixes=P, preserve_networks=N)
+                return None
+            fa = FileAnonymizer(anon_pwd=False, anon_ip=kind == "file", undo_ip_anon=kind == "file-undo", salt="saltForTest",
+                                preserve_prefixes=P, preserve_networks=N)
+
+        def ask(a):
+            out = io.StringIO()
+            with seams.capture_logs():
+                fa.anonymize_io(io.StringIO(a + "\n"), out)
+            return out.getvalue().rstrip("\n")
+        return ask
+
+    def run(self, case):
+        import shutil
+
+        res = Res()
+        P0, N0 = self.OPTIONS[case["opt"]]
+        root = seams.scratch_dir("c03c")
+        try:
+            want = [self.build(case["last"], list(P0), list(N0), root)(a) for a in self.ADDRS]
+            depth = 3 if self.tier == "quick" else 4
+            hists = [tuple(case["before"])] if "before" in case else \
+                [h for d in range(0, depth) for h in itertools.product(self.CTORS, repeat=d)]
+            for h in hists:
+                P, N = list(P0), list(N0)
+                for k in h:
+                    self.build(k, P, N, root)
+                ask = self.build(case["last"], P, N, root)
+                got = [ask(a) for a in self.ADDRS]
+                res.states += 1
+                res.transitions += len(h) + 1
+                res.evals += len(self.ADDRS)
+                res.out(tuple(got))
+                if h:
+                    res.nt((case["opt"], case["last"], h))
+                if got != want:
+                    i = [j for j in range(len(got)) if got[j] != want[j]][0]
+                    res.violation("answer-depends-on-earlier-constructions|shared-option-objects",
+                                  "prefixes %r networks %r: after constructing %r from the same list objects, %s maps %s to %r, built from fresh copies to %r" % (
+                                      P0, N0, list(h), case["last"], self.ADDRS[i], got[i], want[i]), dict(case, before=list(h)))
+                    return res
+                if P != P0 or N != N0:
+                    res.violation("caller-option-lists-changed|shared-option-objects",
+                                  "after constructing %r + %s the caller's lists are %r / %r, were %r / %r" % (
+                                      list(h), case["last"], P, N, P0, N0), dict(case, before=list(h)))
+                    return res
+            if "before" not in case:
+                res.samples.append({"case": case, "histories": len(hists)})
+        finally:
+            shutil.rmtree(root, ignore_errors=True)
+        return res
+
+
 def parts(tier, seed):
-    return [GraphPart(tier, seed), FilesPart(tier, seed), LongHistory(tier, seed), JobSequences(tier, seed), OtherFeatures(tier, seed), PreservedBlockHistories(tier, seed)]
+    return [GraphPart(tier, seed), FilesPart(tier, seed), LongHistory(tier, seed), JobSequences(tier, seed), OtherFeatures(tier, seed), PreservedBlockHistories(tier, seed), ConstructionHistories(tier, seed)]
